@@ -427,6 +427,22 @@ def plan_values(mode, bits):
         return [bool(b) for b in bits]
     if mode == 'op':
         return [OP_VALUES[i % len(OP_VALUES)] if b else None for i, b in enumerate(bits)]
+    if mode == 'host':
+        # host values of the Python types a names mapping may hold (binary floats, ints, text, tuples, decimals with trailing zeros), each a fresh object
+        out = []
+        for i, b in enumerate(bits):
+            kind = i % 5
+            if kind == 0:
+                out.append(float(i) + 0.5 if b else float('0.0') * -1.0 if i % 2 else float('0.0'))
+            elif kind == 1:
+                out.append(10 ** 6 + i if b else 0)
+            elif kind == 2:
+                out.append('s%d' % i if b else '')
+            elif kind == 3:
+                out.append((i,) if b else ())
+            else:
+                out.append(Decimal('1.50') if b else Decimal('0.00'))
+        return out
     return [[i] if b else [] for i, b in enumerate(bits)]
 
 
@@ -444,7 +460,8 @@ def run_case(case, ctx):
     cached = sub % 2 == 0
     ctx.count('shapes_on_caching_parser' if cached else 'shapes_on_plain_parser')
     for bits in assignments:
-        for mode in (('bool', 'obj', 'op') if (sub % 3 == 0 and s[0] in ('and', 'or', 'if', 'not', 'call', 'list', 'dict', 'meth', 'pipe')) else ('bool', 'obj')):
+        for mode in (('bool', 'obj', 'op') if (sub % 3 == 0 and s[0] in ('and', 'or', 'if', 'not', 'call', 'list', 'dict', 'meth', 'pipe')) else
+                     ('bool', 'obj', 'host') if (sub % 3 == 1 and s[0] in ('and', 'or', 'if')) else ('bool', 'obj')):
             for raise_at in [None] + (list(range(k)) if (not ctx.quick or r.random() < 0.25) else [r.randrange(k)] if k else []):
                 ctx.evaluations += 1
                 plan = plan_values(mode, bits)
@@ -490,7 +507,9 @@ def run_case(case, ctx):
                 if exp[0] == 'value' and not statement and s[0] in ('and', 'or', 'if'):
                     ctx.cov('literal_operands', any(isinstance(x, tuple) and x[:1] == ('lit',) for x in s[1:]))
                     ctx.count('deciding_operand_checks')
-                    ok = (got[1] is exp[1]) if (mode in ('obj', 'op') and any(exp[1] is p for p in plan)) else (got[1] == exp[1])
+                    ok = (got[1] is exp[1]) if (mode in ('obj', 'op', 'host') and any(exp[1] is p for p in plan)) else (got[1] == exp[1])
+                    if mode == 'host':
+                        ctx.count('deciding_operand_checks_with_host_typed_values')
                     if not ok:
                         ctx.violation('and/or/if-else did not yield the deciding operand itself', case, detail=detail)
                         return
